@@ -677,9 +677,9 @@ Example demo_slot_reuse :
   end.
 Proof. vm_compute. split; [reflexivity|]. eexists. split; reflexivity. Qed.
 
-(* KF-C19-3: a pop from pending_capacity that is not followed by transition_after, on a record whose last reason it was: the
-   model rejects the section at its end (Quiesce guard, Stuck 9) - the implementation keeps the record for ever *)
-Example known_evict_rejected :
+(* why fix bbd3023 was needed: a pop from pending_capacity that is not followed by transition_after, on a record whose last reason
+   it was, is rejected by the model at the end of the section (Quiesce guard, Stuck 9); the unrepaired code kept the record for ever *)
+Example evict_needs_transition :
   srun (sinit None None 0%Z 20%Z None)
        [ LInsert 0 1 1; LPush KCap (0, 1); LTransitionAfter (0, 1) (mkSO true false false true); LQuiesce;
          LPop KCap; LQuiesce ] = inr (5, SStuck 9).
